@@ -59,36 +59,40 @@ package metadata
 //@     p.TransactionNumber == op.TransactionNumber && p.ProtocolVersion == op.ProtocolVersion &&
 //@     p.CanonicalReference == op.CanonicalReference && p.EquivalentReferences == op.EquivalentReferences && p.AnchorOrigin == op.AnchorOrigin
 //
-// (The loop invariants below discharge all but three obligations in isolation but not within the quick
-// time-out; the contract is therefore checked by the bounded stand-in bounded/c18_published and is an
-// ASSUMPTION for callers - labelled bounded, not proved.)
+// (The loop invariants below discharge all obligations but the preservation of [bound] / [order] within
+// the quick time-out -- those two need about a minute; the contract is therefore checked by the bounded
+// stand-in bounded/c18_published and is an ASSUMPTION for callers - labelled bounded, not proved.
+// Each clause names the loop invariants its proof needs: `uses [...]`.)
 //@ func getPublishedOperations(ops) (ret)
 //@   trusted "bounded: checked by bounded/c18_published over all lists of up to 4 operations, not proved"
-//@   requires forall i int :: 0 <= i && i < len(ops) ==> ops[i] != nil
+//@   requires forall i int :: 0 <= i && i < len(ops) ==> ops[i] != nil && allocated(ops[i])
 //@   modifies elems(ops)
-//@   ensures [subset] forall j int :: 0 <= j && j < len(ret) ==> ret[j] != nil && (exists i int :: 0 <= i && i < len(ops) && samePublished(ret[j], ops[i]))
-//@   ensures [cover] forall i int :: 0 <= i && i < len(ops) ==> (exists j int :: 0 <= j && j < len(ret) && ret[j].CanonicalReference == ops[i].CanonicalReference)
-//@   ensures [dedup] forall a int, b int :: 0 <= a && a < b && b < len(ret) ==> ret[a].CanonicalReference != ret[b].CanonicalReference
-//@   ensures [order] forall a int, b int :: 0 <= a && a < b && b < len(ret) ==>
+//@   ensures [subset] uses [subset, ops] forall j int :: 0 <= j && j < len(ret) ==> ret[j] != nil && (exists i int :: 0 <= i && i < len(ops) && samePublished(ret[j], ops[i]))
+//@   ensures [cover] uses [seen, map-in-list, ops] forall i int :: 0 <= i && i < len(ops) ==> (exists j int :: 0 <= j && j < len(ret) && ret[j].CanonicalReference == ops[i].CanonicalReference)
+//@   ensures [dedup] uses [dedup] forall a int, b int :: 0 <= a && a < b && b < len(ret) ==> ret[a].CanonicalReference != ret[b].CanonicalReference
+//@   ensures [order] uses [order] forall a int, b int :: 0 <= a && a < b && b < len(ret) ==>
 //@        !before(ret[b].TransactionTime, ret[b].TransactionNumber, ret[a].TransactionTime, ret[a].TransactionNumber)
-//@   loop 0 invariant [subset] forall j int :: 0 <= j && j < len(publishedOps) ==> publishedOps[j] != nil && alive(publishedOps[j]) && fresh(publishedOps[j]) &&
+//@   loop 0 invariant [subset] uses [ops] forall j int :: 0 <= j && j < len(publishedOps) ==> publishedOps[j] != nil && alive(publishedOps[j]) && fresh(publishedOps[j]) &&
 //@        (exists i int :: 0 <= i && i < $k && samePublished(publishedOps[j], ops[i]))
-//@   loop 0 invariant [seen] forall i int :: 0 <= i && i < $k ==> has(uniqueOps, ops[i].CanonicalReference)
-//@   loop 0 invariant [map-in-list] forall s string :: has(uniqueOps, s) ==> (exists j int :: 0 <= j && j < len(publishedOps) && publishedOps[j].CanonicalReference == s)
-//@   loop 0 invariant [list-in-map] forall j int :: 0 <= j && j < len(publishedOps) ==> has(uniqueOps, publishedOps[j].CanonicalReference)
-//@   loop 0 invariant [dedup] forall a int, b int :: 0 <= a && a < b && b < len(publishedOps) ==> publishedOps[a].CanonicalReference != publishedOps[b].CanonicalReference
-//@   loop 0 invariant [order] forall a int, b int :: 0 <= a && a < b && b < len(publishedOps) ==>
+//@   loop 0 invariant [seen] uses [ops] forall i int :: 0 <= i && i < $k ==> has(uniqueOps, ops[i].CanonicalReference)
+//@   loop 0 invariant [map-in-list] uses [ops, subset] forall s string :: has(uniqueOps, s) ==> (exists j int :: 0 <= j && j < len(publishedOps) && publishedOps[j].CanonicalReference == s)
+//@   loop 0 invariant [list-in-map] uses [ops, subset] forall j int :: 0 <= j && j < len(publishedOps) ==> has(uniqueOps, publishedOps[j].CanonicalReference)
+//@   loop 0 invariant [dedup] uses [ops, subset, list-in-map] forall a int, b int :: 0 <= a && a < b && b < len(publishedOps) ==> publishedOps[a].CanonicalReference != publishedOps[b].CanonicalReference
+// (what is still to come is not anchored before anything already emitted: that is what makes appending keep the order)
+//@   loop 0 invariant [bound] uses [ops, subset, ops-sorted] forall a int, j int :: 0 <= a && a < len(publishedOps) && $k <= j && j < len(ops) ==>
+//@        !before(ops[j].TransactionTime, ops[j].TransactionNumber, publishedOps[a].TransactionTime, publishedOps[a].TransactionNumber)
+//@   loop 0 invariant [order] uses [ops, subset, bound] forall a int, b int :: 0 <= a && a < b && b < len(publishedOps) ==>
 //@        !before(publishedOps[b].TransactionTime, publishedOps[b].TransactionNumber, publishedOps[a].TransactionTime, publishedOps[a].TransactionNumber)
-//@   loop 0 invariant [ops] uniqueOps != nil && (forall j int :: 0 <= j && j < len(ops) ==> ops[j] != nil && !fresh(ops[j])) &&
+//@   loop 0 invariant [ops] uses [] uniqueOps != nil && (forall j int :: 0 <= j && j < len(ops) ==> ops[j] != nil && !fresh(ops[j])) &&
 //@        (publishedOps == nil || fresh(publishedOps))
-//@   loop 0 invariant [ops-sorted] forall a int, b int :: 0 <= a && a < b && b < len(ops) ==>
+//@   loop 0 invariant [ops-sorted] uses [ops, subset] forall a int, b int :: 0 <= a && a < b && b < len(ops) ==>
 //@        !before(ops[b].TransactionTime, ops[b].TransactionNumber, ops[a].TransactionTime, ops[a].TransactionNumber)
 
 // document metadata: every item is present exactly under its condition and equal to the state's field
 //@ func (t *Metadata) CreateDocumentMetadata(rm, info) (ret, err)
 //@   modifies elems(rm.PublishedOperations), elems(rm.UnpublishedOperations)
 //@   requires t != nil
-//@   requires rm != nil ==> (forall i int :: 0 <= i && i < len(rm.PublishedOperations) ==> rm.PublishedOperations[i] != nil) &&
+//@   requires rm != nil ==> (forall i int :: 0 <= i && i < len(rm.PublishedOperations) ==> rm.PublishedOperations[i] != nil && allocated(rm.PublishedOperations[i])) &&
 //@        (forall i int :: 0 <= i && i < len(rm.UnpublishedOperations) ==> rm.UnpublishedOperations[i] != nil && allocated(rm.UnpublishedOperations[i]))
 //@   requires info != nil && has(info, "published") ==> typeis(info["published"], bool)
 // the two operation lists are separate slices (both are sorted in place)
